@@ -11,9 +11,14 @@
      __exit__, start, stop, _patch_stopall, decoration_helper / decorate_class (they reduce to
      __enter__/__exit__ pairs), MagicMock being a non-descriptor callable, the descriptor protocol.
 
-   Two repairs are modelled (work/fixes/C19-*.diff, known/C19.json):
+   Two repairs are modelled (work/fixes/C19-*.diff, known/C19.json; both are in /repo now):
      - patch()/patch.object default autospec=None, so that new_callable can be used at all;
-     - _PatchAsync.__enter__ undoes the patch when attaching .asynq/.asyncio fails.            *)
+     - _PatchAsync.__enter__ undoes the patch when attaching .asynq/.asyncio fails, WHATEVER the
+       exception the replacement refuses the attribute with (bare `except:` 157-162), and re-raises it.
+   Object identity: _patch.__enter__ (mock.py) builds a NEW object on every activation when
+   new is DEFAULT (MagicMock or new_callable()); an explicit new= object is the same object every
+   time.  `ONew p g` = the object installed by patcher p, g = which activation made it (0 for an
+   explicit object); `gen` counts the successful activations per patcher.                        *)
 From Asynq Require Export Base.
 
 (* ------------------------------------------------------------------ static description *)
@@ -31,8 +36,12 @@ Inductive rkind :=
 | RNonCallable        (* e.g. a string                                                            *)
 | RNcMock             (* new_callable=MagicMock                                                   *)
 | RNcObj              (* new_callable=<class with __call__ and __dict__>                          *)
-| RNcSlots            (* new_callable=<class with __call__ refusing attributes>                   *)
-| RNcNonCallable.     (* new_callable=NonCallableMock                                             *)
+| RNcSlots            (* new_callable=<class with __call__ and __slots__>: AttributeError on setattr *)
+| RNcNonCallable      (* new_callable=NonCallableMock                                             *)
+| RNcFrozen           (* new_callable=<class with __call__ whose __setattr__ raises TypeError>,
+                         like a Cython cdef class                                                 *)
+| RNcType             (* new_callable=lambda: <immutable builtin type, e.g. dict>: TypeError      *)
+| RNcRaiser.          (* new_callable=<class with __call__ whose __setattr__ raises RuntimeError> *)
 
 Inductive beh := BRet | BRaise.          (* what the replacement's body does with its arguments *)
 
@@ -49,7 +58,8 @@ Record newdesc := mkdesc {
 
 Definition desc_of (r : rkind) : newdesc :=
   match r with
-  | RDefault | RNcMock | RNcObj | RNcSlots | RNcNonCallable => mkdesc true false true true
+  | RDefault | RNcMock | RNcObj | RNcSlots | RNcNonCallable | RNcFrozen | RNcType | RNcRaiser =>
+    mkdesc true false true true
   | RFunc => mkdesc false true true true
   | RClassmethod => mkdesc false true false true      (* classmethod objects are not callable *)
   | RStaticmethod => mkdesc false true true true
@@ -69,6 +79,9 @@ Definition maybe_wrap_new (d : newdesc) : wrapres :=
   else if negb (is_callable d) then WAsIs
   else if takes_attrs d then WAsIs else WWrapper.
 
+(* the exception with which an object refuses `obj.asynq = ...` *)
+Inductive refusal := RefAttr | RefType | RefOther.
+
 (* the object that ends up in the patched slot *)
 Inductive inst :=
 | IMock               (* MagicMock made by _patch.__enter__                                       *)
@@ -76,7 +89,7 @@ Inductive inst :=
 | IWrapper            (* _maybe_wrap_new.Wrapper() delegating to new                     274-278 *)
 | IPair (ft : ftype)  (* asynq(sync_fn=new)(new): AsyncAndSyncPairDecorator                 257 *)
 | IAsynq              (* an AsyncDecorator given as new, installed as is                          *)
-| ISlots              (* attribute-refusing callable made by new_callable, installed unwrapped    *)
+| ISlots (e : refusal) (* attribute-refusing callable made by new_callable, installed unwrapped   *)
 | IPlain              (* non-callable, installed as is                                       259 *)
 | IOrig (ft : ftype). (* the original @asynq() function / method (AsyncDecorator)                 *)
 
@@ -94,7 +107,9 @@ Definition installed (r : rkind) : inst :=
              end
   | WDefault => match r with               (* _patch.__enter__: new = Klass(kwargs) *)
                 | RNcObj => IObj
-                | RNcSlots => ISlots
+                | RNcSlots => ISlots RefAttr
+                | RNcFrozen | RNcType => ISlots RefType
+                | RNcRaiser => ISlots RefOther
                 | RNcNonCallable => IPlain
                 | _ => IMock
                 end
@@ -103,7 +118,11 @@ Definition installed (r : rkind) : inst :=
 Definition inst_callable (i : inst) : bool :=
   match i with IPlain => false | _ => true end.
 Definition inst_takes_attrs (i : inst) : bool :=
-  match i with ISlots => false | _ => true end.
+  match i with ISlots _ => false | _ => true end.
+
+(* a fresh object per activation (new is DEFAULT: mock.py _patch.__enter__ new = Klass(kwargs))
+   or the one object given as new= *)
+Definition per_activation (r : rkind) : bool := is_default (desc_of r).
 
 (* ------------------------------------------------------------------ calling conventions *)
 Inductive conv := CSync | CValue | CYield | CAsyncio.
@@ -173,7 +192,7 @@ Section Dispatch.
   Definition dispatch (i : inst) (acc : access) (c : conv) (args : list A) : reach :=
     match i with
     | IPlain => NotCallable
-    | IMock | IObj | ISlots => conv_attached body c args
+    | IMock | IObj | ISlots _ => conv_attached body c args
     | IWrapper => conv_attached (fun a => body a) c args                 (* Wrapper.__call__ 275-276 *)
     | IPair ft =>
       match acc with
@@ -214,10 +233,11 @@ Definition access_of (tk : tkind) (own_present : bool) : access :=
   end.
 
 (* ------------------------------------------------------------------ the store and patchers *)
-Inductive obj := OOrig (t : Z) | ONew (p : Z).
+Inductive obj := OOrig (t : Z) | ONew (p : Z) (g : Z).
 Definition obj_eqb (a b : obj) : bool :=
   match a, b with
-  | OOrig x, OOrig y | ONew x, ONew y => Z.eqb x y
+  | OOrig x, OOrig y => Z.eqb x y
+  | ONew x g, ONew y h => Z.eqb x y && Z.eqb g h
   | _, _ => false
   end.
 
@@ -229,7 +249,8 @@ Definition psaved := option (option obj * bool).
 Record state := mkst {
   own : Z -> option obj;        (* target.__dict__[attribute]                                  *)
   saved : Z -> psaved;          (* per patcher                                                 *)
-  active : list Z               (* _patch._active_patches                                      *)
+  active : list Z;              (* _patch._active_patches                                      *)
+  gen : Z -> Z                  (* per patcher: successful activations so far                  *)
 }.
 
 Definition upd {V} (f : Z -> V) (k : Z) (v : V) : Z -> V := fun x => if Z.eqb x k then v else f x.
@@ -245,6 +266,18 @@ Inductive ores :=
 | RFail (e : exn).              (* raised                                                      *)
 
 Definition E_ATTRIBUTE : exn := -19.   (* AttributeError *)
+Definition E_TYPE : exn := E_TYPEERROR.   (* TypeError *)
+
+(* the setattr failure is re-raised unchanged (mock_.py 161-162: `if not self.__exit__(..): raise`) *)
+Definition refusal_exn (r : refusal) : exn :=
+  match r with RefAttr => E_ATTRIBUTE | RefType => E_TYPE | RefOther => E_RUNTIME end.
+
+(* mock_.py 150-156: attaching happens only to callables; it fails on an attribute-refusing one *)
+Definition attach_failure (i : inst) : option exn :=
+  if inst_callable i then match i with ISlots r => Some (refusal_exn r) | _ => None end else None.
+
+(* the object an activation of patcher p installs when p has been activated g times before *)
+Definition new_obj (p : Z) (r : rkind) (g : Z) : obj := ONew p (if per_activation r then g else 0).
 
 Section Run.
   Variable w : world.
@@ -262,10 +295,13 @@ Section Run.
       match orig with
       | None => (st, RFail E_ATTRIBUTE)             (* get_original: no such attribute, create=False *)
       | Some _ =>
-        let i := installed (prk sp) in
-        if inst_callable i && negb (inst_takes_attrs i)
-        then (st, RFail E_ATTRIBUTE)                (* attaching .asynq fails: patch undone (repair) *)
-        else (mkst (upd (own st) t (Some (ONew p))) (upd (saved st) p (Some (orig, local))) (active st), RDone)
+        match attach_failure (installed (prk sp)) with
+        | Some e => (st, RFail e)                   (* attaching .asynq fails: patch undone, re-raised *)
+        | None =>
+          (mkst (upd (own st) t (Some (new_obj p (prk sp) (gen st p))))
+                (upd (saved st) p (Some (orig, local))) (active st)
+                (upd (gen st) p (gen st p + 1)), RDone)
+        end
       end
     end.
 
@@ -279,14 +315,14 @@ Section Run.
                        | Some _ => upd (own st) t None         (* delattr; hasattr still true *)
                        | None => upd (own st) t orig
                        end in
-      (mkst own' (upd (saved st) p None) (active st), RDone)
+      (mkst own' (upd (saved st) p None) (active st) (gen st), RDone)
     | _, _ => (st, RFail E_ATTRIBUTE)               (* del self.temp_original: AttributeError *)
     end.
 
   Definition start (st : state) (p : Z) : state * ores :=
     let '(st', r) := enter st p in
     match r with
-    | RDone => (mkst (own st') (saved st') (active st' ++ [p]), RDone)
+    | RDone => (mkst (own st') (saved st') (active st' ++ [p]) (gen st'), RDone)
     | _ => (st', r)
     end.
 
@@ -300,7 +336,7 @@ Section Run.
   Definition stop (st : state) (p : Z) : state * ores :=
     match remove1 p (active st) with
     | None => (st, RDone)                           (* not started: returns None *)
-    | Some l => exit (mkst (own st) (saved st) l) p
+    | Some l => exit (mkst (own st) (saved st) l (gen st)) p
     end.
 
   (* _patch_stopall: for patch in reversed(_active_patches): patch.stop()
@@ -354,7 +390,7 @@ Section Run.
   Definition obj_inst (o : obj) : option (inst * beh) :=
     match o with
     | OOrig t => Some (match tkinds w t with TAttr => IPlain | tk => IOrig (orig_ftype tk) end, BRet)
-    | ONew p => match specs w p with
+    | ONew p _ => match specs w p with
                 | Some sp => Some (installed (prk sp), pbeh sp)
                 | None => None
                 end
@@ -415,7 +451,7 @@ Definition init_state (tks : list tkind) : state :=
                  | Some _ => Some (OOrig t)
                  | None => None
                  end)
-       (fun _ => None) [].
+       (fun _ => None) [] (fun _ => 0).
 
 Fixpoint zrange (n : nat) : list Z :=
   match n with O => [] | S k => zrange k ++ [Z.of_nat k] end.
